@@ -5,6 +5,7 @@ from checks.enginelib import charts, shrink
 from checks import c01
 
 THEOREMS = [
+    ("UscxmlVerif.Properties.C03.both_engines_keep_complete_partial", "proved", "PARTIAL: on history-free coherent charts meeting the decidable DownOk (evaluated on the generated charts by check C02) a step of either engine keeps the configuration complete downwards: all children of an active parallel state, a child of an active compound state"),
     ("UscxmlVerif.Properties.C03.both_engines_keep_parents_partial", "proved", "PARTIAL: on history-free coherent charts with plain selectable transitions (decidable, evaluated on the generated charts by check C02) a step of either engine keeps the configuration parent-closed and inside the chart"),
     ("UscxmlVerif.Properties.C03.fast_selection_conflict_free_w3c_of_document", "proved", "PARTIAL: for every well-formed document FastMicroStep's selected set is conflict-free in Appendix D's sense, as LargeMicroStep's is (C01)"),
     ("UscxmlVerif.Properties.C03.fast_selection_conflict_free_w3c", "proved", "PARTIAL: FastMicroStep's selected set is conflict-free in Appendix D's sense as well (same hypotheses as C01.selection_conflict_free_w3c; evaluated on the generated charts by check C01/C05)"),
@@ -12,7 +13,7 @@ THEOREMS = [
     ("UscxmlVerif.Properties.C03.both_engines_keep_configuration_a_set", "proved", "both engines keep the configuration ascending, duplicate-free and free of pseudo-states"),
 ]
 FINISH = {"level": "exploration"}   # trace equality of the two engines is decided by running them side by side
-LEAN_FILES = ["UscxmlVerif.Properties.C03", "UscxmlVerif.Proofs.Select", "UscxmlVerif.Proofs.Interval", "UscxmlVerif.Proofs.Subtree", "UscxmlVerif.Proofs.ParentsFast"]
+LEAN_FILES = ["UscxmlVerif.Properties.C03", "UscxmlVerif.Proofs.Select", "UscxmlVerif.Proofs.Interval", "UscxmlVerif.Proofs.Subtree", "UscxmlVerif.Proofs.ParentsFast", "UscxmlVerif.Proofs.DownFast", "UscxmlVerif.Proofs.DownRunFast"]
 
 
 def run(ctx):
